@@ -160,6 +160,14 @@ fn run_replay(root: &str, path: &str, verbose: bool) -> i32 {
         1
       }
       None => {
+        // schedule-carrying files: also the family of schedules (see probe_still_fails)
+        if let Ok(true) = probe_still_fails(&ctx, path) {
+          if verbose {
+            eprintln!("the stored schedule holds, but the scenario fails under another schedule of the family");
+          }
+          println!("VIOLATION property={} replay={}", rf.property, path);
+          return 1;
+        }
         if verbose {
           println!("replay holds: {}", rep.sample.unwrap_or_default());
         }
@@ -240,10 +248,22 @@ fn run_check(root: &str, pid: &str, tier: Tier, seed: u64, only: Option<String>)
   for f in files {
     match replay_report(&ctx, &f) {
       Ok((_, rep)) => {
+        let mut held = rep.fail.is_none();
         if let Some(m) = &rep.fail {
           eprintln!("[{}] regression file {} fails: {}", pid, f, m);
+        } else {
+          // a file that carries a schedule is a scenario: the stored interleaving is only
+          // exact on the tree and runtime it was found on, so the same family of schedules
+          // as for known-finding probes is tried as well
+          match probe_still_fails(&ctx, &f) {
+            Ok(true) => {
+              eprintln!("[{}] regression scenario {} fails under another schedule", pid, f);
+              held = false;
+            }
+            _ => {}
+          }
         }
-        replayed.push((f, rep.fail.is_none()));
+        replayed.push((f, held));
       }
       Err(e) => eprintln!("[{}] regression file skipped: {}", pid, e),
     }
